@@ -6,6 +6,7 @@ import ConjureVerif.Model.Plain
 import ConjureVerif.Model.Negotiate
 import ConjureVerif.Model.Body
 import ConjureVerif.Model.LogSafety
+import ConjureVerif.Model.WrapIO
 /-
 Line-protocol driver.  One operation per input line: `<property> <op> <args…>`; one output line per
 operation.  Imports models only (no Mathlib, no proofs), so it links as a native executable.
@@ -16,6 +17,7 @@ def dispatch (line : String) : String :=
   match line.trimAscii.toString.splitOn " " with
   | "C15" :: rest => SafeLong.handle rest
   | "C07" :: rest => Uri.handle rest
+  | "C01" :: rest => WrapIO.handle rest
   | "C06" :: rest => Body.handle rest
   | "C18" :: rest => Body.handle rest
   | "C08" :: rest => LogSafety.handle rest
